@@ -706,6 +706,10 @@ def clip(a, a_min=None, a_max=None, out=None, out_like=None, sizing='optimal', m
 
         return utils.clip(x.val, val_min=val_min, val_max=val_max) * precision_cast(2**(n_frac - x.n_frac))
 
+    # (numpy also names the limits `min` and `max`)
+    if 'min' in kwargs: a_min = kwargs.pop('min')
+    if 'max' in kwargs: a_max = kwargs.pop('max')
+
     # (limits given as fixed-point objects are used by value, with both methods)
     kwargs['a_min'] = a_min.get_val() if isinstance(a_min, Fxp) else a_min
     kwargs['a_max'] = a_max.get_val() if isinstance(a_max, Fxp) else a_max
